@@ -61,3 +61,19 @@ def register(check, TIERB_NOTE):
           "input (leaf set, ordered-list order, unkeyed-list length). Both aliasing defects this found are repaired in /repo.",
           "DESIGN.md §5 (Tier B, C04)", TIERB_NOTE,
           "deterministic simulation: seeded mutation histories on copy/original pairs with deep-fingerprint frame oracle, ddmin-minimised replay")
+    check("C21", "exploration",
+          "Deterministic simulation of concurrent callers: 2-4 (thorough: up to 6) tasks run as real goroutines under a seeded cooperative scheduler that "
+          "decides every switch (yield points at every function entry, store and lock operation of ygot's runtime packages and of the generated code; "
+          "random-walk preemption with swarm-drawn mean gap, starvation windows, lock-biased preemption right after a mutex is acquired, regexp-cache "
+          "evictions as buggify, failing operations mixed in). Workloads: read-only operations on one shared tree (Validate, EmitJSON, Marshal7951, "
+          "ConstructIETFJSON, TogNMINotifications, GetNode, Diff, DiffWithAtomic, DeepCopy, EncodeTypedValue) and Unmarshal / SetNode / UnmarshalSetRequest "
+          "histories into private trees sharing one schema and one pool of input messages. Oracles: (1) the race detector, with the scheduler's hand-offs and - "
+          "in race-mode runs - all library-internal synchronisation hidden from it, so that two tasks are ordered only by ygot's own mutexes and the verdict "
+          "does not depend on accidental ordering through sync.Pool etc.; reports are attributed to ygot by their innermost non-runtime frame; (2) every task's "
+          "results equal those of running its list alone on equal state; (3) termination (no all-blocked state). A violation is minimised over tasks, operations "
+          "and preemptions by replaying candidates in fresh processes. The defect this found (SetNode rewriting the caller's TypedValue) is repaired in /repo.",
+          "DESIGN.md §5 (C21)",
+          "Sampling of schedules, not enumeration. Trusted: Go's race detector (bounded per-word access history), the instrumenter, the cooperative scheduler and "
+          "its hidden hand-offs. Preemption inside un-instrumented dependencies is not explored. If the code under test starts using synchronisation other than "
+          "sync.Mutex/RWMutex the check falls back to leaving library synchronisation visible (less sensitive, never unsound).",
+          "deterministic simulation: seeded cooperative scheduler over real goroutines, race detector with hidden scheduler/library synchronisation, solo-vs-interleaved result comparison, fresh-process ddmin over tasks/ops/preemptions")
